@@ -847,6 +847,81 @@ fn random_history(rng: &mut Rng, n_ops: usize, mode: Mode) -> Vec<Op> {
 
 // ---------------------------------------------------------------------------------------
 
+// ---------------------------------------------------------------------------------------
+// stale unregisters racing with a registration
+//
+// The only source of a stale unregister (a connection that is neither the active nor an inactive
+// one of its id any more) is `Clients::shutdown()`: it takes the entries out of the registry, and
+// the connection actors unregister themselves later.  A connection of the same id registered in
+// between must stay registered and keep receiving the id's traffic.
+
+/// `n_old` connections of id 0 and a peer (id 1) exist; `shutdown()` is polled `polls` times
+/// (0 = not started yet when the new connection registers ... ), then a new connection of id 0
+/// registers, then the shutdown runs to completion.  Returns (violations, inconclusive).
+async fn shutdown_race_case(seed: u64, n_old: usize, polls: usize, v1: bool) -> Outcome {
+    use std::future::Future;
+    let w = World::new(seed);
+    let mut out = Outcome::default();
+    for _ in 0..n_old {
+        w.exec(&Op::Connect { id: 0, v1: false }, 0);
+    }
+    w.exec(&Op::Connect { id: 1, v1: false }, 0);
+    rig::settle().await;
+    // old connections send to the peer, so a later peer-gone notice would be due
+    w.exec(&Op::Send { conn: 0, dst: 1 }, 1);
+    rig::settle().await;
+    let clients = w.clients.clone();
+    let mut fut = Box::pin(async move { clients.shutdown().await });
+    let waker = std::task::Waker::noop();
+    let mut cx = std::task::Context::from_waker(waker);
+    let mut finished = false;
+    for _ in 0..polls {
+        if fut.as_mut().poll(&mut cx).is_ready() {
+            finished = true;
+            break;
+        }
+    }
+    // the new connection of id 0 registers while the old actors have not unregistered yet
+    w.exec(&Op::Connect { id: 0, v1 }, 0);
+    let new_conn = n_old + 1;
+    if !finished {
+        tokio::spawn(fut);
+    }
+    rig::settle().await;
+    out.c("shutdown_race.cases", 1);
+    if polls > 0 {
+        out.c("shutdown_race.registered_after_entries_taken_before_unregister", 1);
+    }
+    // a fresh peer connection probes id 0
+    w.exec(&Op::Connect { id: 1, v1: false }, 0);
+    let probe_from = n_old + 2;
+    rig::settle().await;
+    let _ = new_frames(&w, new_conn);
+    let tag = 777_000 + seed % 1000;
+    w.exec(&Op::Send { conn: probe_from, dst: 0 }, tag);
+    rig::settle().await;
+    let arrived = new_frames(&w, new_conn).iter().any(|(_, f)| matches!(f, RFrame::Datagrams { contents, .. } if tag_of(contents) == Some(tag)));
+    let dropped = w.cs()[new_conn].rig.conn.is_dropped();
+    if polls == 0 {
+        // shutdown ran entirely after the registration: it may legitimately have closed the new
+        // connection as well; nothing to judge
+        out.c("shutdown_race.shutdown_after_registration(not judged)", 1);
+    } else if dropped {
+        out.v("C06:stale-unregister:live-connection-ended", format!("{n_old} old connection(s), shutdown polled {polls}x, then a new connection of the id registered: it was closed by the relay"));
+    } else if !arrived {
+        out.v("C06:stale-unregister:traffic-not-delivered-to-newest-connection", format!("{n_old} old connection(s), shutdown polled {polls}x, then a new connection of the id registered: a probe for the id arrived nowhere (entry removed by a stale unregister?)"));
+    } else {
+        out.c("shutdown_race.new_connection_kept_and_served", 1);
+    }
+    // tear down
+    let all: Vec<_> = w.cs().iter().map(|c| c.rig.conn.clone()).collect();
+    for c in &all {
+        c.close();
+    }
+    rig::settle().await;
+    out
+}
+
 fn execute(ops: &[Op], seed: u64, mode: Mode, prt: Option<&tokio::runtime::Runtime>) -> Outcome {
     match mode {
         Mode::Parallel => prt.expect("parallel runtime").block_on(run_history(ops, seed, mode)),
@@ -892,6 +967,16 @@ fn main() {
     if let Some(p) = &a.replay {
         let v: serde_json::Value = serde_json::from_str(&std::fs::read_to_string(p).unwrap()).unwrap();
         let r = &v["replay"];
+        if r["mode"] == "shutdown-race" {
+            let rt = tokio::runtime::Builder::new_current_thread().enable_time().start_paused(true).build().expect("runtime");
+            let out = rt.block_on(shutdown_race_case(r["seed"].as_u64().unwrap_or(0), r["n_old"].as_u64().unwrap_or(1) as usize, r["polls"].as_u64().unwrap_or(1) as usize, r["v1"].as_bool().unwrap_or(false)));
+            rep.eval();
+            for (sig, d) in &out.violations {
+                rep.violation(sig, d.clone(), r.clone());
+            }
+            rep.finish();
+            return;
+        }
         let ops: Vec<Op> = serde_json::from_value(r["ops"].clone()).expect("ops");
         let seed = r["seed"].as_u64().unwrap_or(0);
         let mode = match r["mode"].as_str() {
@@ -915,6 +1000,7 @@ fn main() {
     assert_eq!(orders.len(), 15);
     let variants = 27 * 8 * a.pick(1u64, 16);
     let n_strict = a.pick(2000u64, 90_000);
+    let n_shutdown_race = a.pick(240u64, 6_000);
     let n_relaxed = a.pick(6000u64, 360_000);
     let n_parallel = a.pick(600u64, 36_000);
     let threads = a.pick(4usize, 12);
@@ -935,6 +1021,24 @@ fn main() {
                     let ops = exhaustive_history(order, k % 27, (k / 27) % 8 + if r2.bool() { 8 } else { 0 }, r2.next_u64());
                     let out = execute(&ops, a.seed ^ i, Mode::Strict, None);
                     judge(&rep, &ops, a.seed ^ i, Mode::Strict, out, true);
+                    i += threads as u64;
+                }
+                // (1b) stale unregisters racing with a registration (shutdown + re-register)
+                let mut i = shard as u64;
+                while i < n_shutdown_race {
+                    let (n_old, polls, v1) = (1 + (i % 3) as usize, ((i / 3) % 4) as usize, (i / 12) % 2 == 1);
+                    let rt = tokio::runtime::Builder::new_current_thread().enable_time().start_paused(true).build().expect("runtime");
+                    let out = rt.block_on(shutdown_race_case(a.seed ^ i, n_old, polls, v1));
+                    rep.eval();
+                    for (k, n) in &out.counts {
+                        rep.count(k, *n);
+                    }
+                    for (sig, d) in &out.violations {
+                        rep.violation(sig, d.clone(), json!({"mode": "shutdown-race", "seed": a.seed ^ i, "n_old": n_old, "polls": polls, "v1": v1}));
+                    }
+                    if polls > 0 && out.violations.is_empty() {
+                        rep.nontrivial(format!("shutdown-race/{n_old}/{polls}/{v1}").as_bytes());
+                    }
                     i += threads as u64;
                 }
                 for (mode, n) in [(Mode::Strict, n_strict), (Mode::Relaxed, n_relaxed), (Mode::Parallel, n_parallel)] {
@@ -962,6 +1066,7 @@ fn main() {
     rep.require("roles.repromoted_and_told_healthy", 50);
     rep.require("safety.peer_gone_notices", 50);
     rep.require("histories.parallel", 20);
+    rep.require("shutdown_race.new_connection_kept_and_served", 30);
     rep.assumption("queues never overflow in these histories (capacity 256), so every notice the statement conditions on queue room is due");
     rep.assumption("'clients it had sent to' is read per endpoint id: the notice goes to the peer id's active connection");
     rep.finish();
